@@ -200,6 +200,18 @@ func runCase(c Case, run *vh.Run, idx int) (res result, fatal string) {
 			o.outcome, o.dbErr = sqlh.Classify(br.Errs[i], br.Panics[i], sqlh.AnyFailed(res.log))
 			res.subs = append(res.subs, o)
 			// rows handed to a caller of a limited handle lie in its shard
+			// (only for filters outside the known class c10-batch-matcher-go-type: there the matcher's Go
+			// equality is not SQL equality, e.g. a pointer to "" on an implicitnull column also matches NULL)
+			typed := true
+			for k, v := range c.Filters[i] {
+				if col := t.Col(k); col != nil && !sqlh.ExactlyTyped(col, v) {
+					typed = false
+				}
+			}
+			if !typed && len(c.callerHandle(i).Enforced()) > 0 {
+				run.Hist("rows-in-shard-oracle-skipped:filter-in-known-matcher-class")
+				continue
+			}
 			for _, l := range c.callerHandle(i).Enforced() {
 				for _, row := range br.Rows[i] {
 					for k, lv := range l {
